@@ -8,8 +8,8 @@ package main
 
 import (
 	"errors"
-	"io"
 	"fmt"
+	"io"
 	"net"
 	"os"
 	"sync/atomic"
